@@ -270,6 +270,9 @@ func (cw *ccWorld) randUserOp(c *Ctx, ch string) ccUserOp {
 		o.tok = own
 		o.to = []string{own, "XX"}[rng.Intn(2)]
 	}
+	if rng.Intn(4) == 0 {
+		o.to = strings.ToLower(o.to) // channel names are compared case-insensitively
+	}
 	if rng.Intn(8) == 0 {
 		o.user = -1
 	}
